@@ -702,11 +702,14 @@ fn corr(seed: u64, n: usize) {
 struct Fails {
     n: usize,
     evals: u64,
+    per: std::collections::HashMap<String, usize>,
 }
 impl Fails {
     fn report(&mut self, what: &str, input: String, expected: String, actual: String) {
         self.n += 1;
-        if self.n <= 40 {
+        let k = self.per.entry(what.to_string()).or_insert(0);
+        *k += 1;
+        if *k <= 6 {
             println!("{{\"what\":{},\"input\":{},\"expected\":{},\"actual\":{}}}", jstr(what), jstr(&input), jstr(&expected), jstr(&actual));
         }
     }
@@ -738,17 +741,17 @@ fn falsify_conj_grid(fails: &mut Fails, tracelogs: &[u8], crs: &[u32], qstep: us
                                 };
                                 fails.evals += 1;
                                 let want = oracle_conj(f.bits(), deg, tl as u32, q as u32, b as u32, g, cr);
-                                let input = format!("conjectured field={} tracelog={} q={} blowup={} grinding={} degree={} cr={}", f.name(), tl, q, b, g, deg, cr);
+                                let input = || format!("conjectured field={} tracelog={} q={} blowup={} grinding={} degree={} cr={}", f.name(), tl, q, b, g, deg, cr);
                                 match r {
                                     Ok(v) => {
                                         tab[deg as usize - 1][g as usize][q] = v as i64;
                                         if v as i128 != want {
-                                            fails.report("conjectured level differs from the documented formula", input, want.to_string(), v.to_string());
+                                            fails.report("conjectured level differs from the documented formula", input(), want.to_string(), v.to_string());
                                         }
                                     }
                                     Err(m) => {
                                         tab[deg as usize - 1][g as usize][q] = -1;
-                                        fails.report("security_level panicked", input, want.to_string(), format!("panic: {m}"));
+                                        fails.report("security_level panicked", input(), want.to_string(), format!("panic: {m}"));
                                     }
                                 }
                                 q += qstep;
@@ -940,7 +943,7 @@ where
 
 fn falsify(seed: u64, n: usize) {
     let mut r = Rng::new(seed ^ 0xFA15);
-    let mut fails = Fails { n: 0, evals: 0 };
+    let mut fails = Fails { n: 0, evals: 0, per: Default::default() };
     if let Err(e) = selfcheck() {
         fails.report("harness selfcheck", "context layout".into(), "hand-built bytes == to_bytes".into(), e);
     }
